@@ -1,5 +1,5 @@
 """property -> rules.  A property appears here only when its check is complete enough to be claimed."""
-from .rules import optable, stack_rules, spelling
+from .rules import optable, stack_rules, spelling, effects
 
 PROPS = {}
 
@@ -271,6 +271,7 @@ def c17(ctx, rep):
     cfg_rules.rule_cfg_shapes(ctx, rep)
     cfg_rules.rule_no_mutation_under_iteration(ctx, rep)
     cmptables.rule_totality(ctx, rep)
+    effects.rule_block_provenance(ctx, rep)
 
 
 @prop("C18", "Decides the structural clauses of C18: (T-DOT(cfg)) node set, instruction rows and edge set of the cfg export equal the "
@@ -287,6 +288,7 @@ def c18(ctx, rep):
     output_rules.rule_json_envelope(ctx, rep)
     detectors.rule_renderings(ctx, rep)
     cfg_rules.rule_call_graph(ctx, rep)
+    effects.rule_block_provenance(ctx, rep)
 
 
 from .rules import effects  # noqa: E402
